@@ -169,6 +169,13 @@ def unitary_test(run, rng, count):
         if kind == "named":
             g = rng.choice([gates.CNOT(0, 1), gates.SWAP(0, 1), gates.iSWAP(0, 1), gates.CZ(0, 1), gates.fSim(0, 1, 0.3, 0.7)])
             return np.asarray(g.matrix())
+        if kind == "library":        # the matrix of ANY two-qubit class at random / special angles, either qubit order
+            cat = [(nm, ps) for nm, nq_, ps in qtrace.catalogue() if nq_ == 2]
+            nm, ps = cat[rng.randrange(len(cat))]
+            vals = [rng.choice([0.0, math.pi / 2, math.pi, 0.6, round(rng.uniform(0.1, 1.4), 3)]) for _ in ps]
+            if nm == "MS":
+                vals[2] = min(abs(vals[2]), math.pi / 2)
+            return np.asarray(qtrace.make_gate(nm, rng.sample([0, 1], 2), vals).matrix())
         if kind == "real_named":      # real / integer dtype, determinant -1 or +1
             M = rng.choice([gates.CNOT(0, 1), gates.SWAP(0, 1), gates.CZ(0, 1), gates.FSWAP(0, 1)]).matrix()
             return np.real(np.asarray(M)).astype(rng.choice([float, int]))
@@ -183,7 +190,7 @@ def unitary_test(run, rng, count):
     n_done = 0
     for i in range(count):
         d = rng.choice([2, 4])
-        kind = rng.choice(["haar", "diag", "degenerate", "identity", "real_orthogonal"] + (["kron", "named", "real_named"] if d == 4 else []))
+        kind = rng.choice(["haar", "diag", "degenerate", "identity", "real_orthogonal"] + (["kron", "named", "real_named", "library", "library", "library"] if d == 4 else []))
         U = rand_u(d, kind)
         updated = (i % 3 == 0)        # matrix replaced after construction (parameters setter), then unrolled
         ctrl = (i % 5 == 4)           # Unitary(...).controlled_by(c): outside the tables -> must raise, or be right
@@ -313,7 +320,7 @@ def main(run):
     tables.run_items(run, items, "C10_tables", rng)
     tables.run_items(run, controlled_items(run, run.tier), "C10_controlled", rng)
     kak_core(run, rng)
-    unitary_test(run, rng, 60 if run.tier == "quick" else 1500)
+    unitary_test(run, rng, 160 if run.tier == "quick" else 2500)
     return run.finish(rule=RULE)
 
 
